@@ -43,6 +43,10 @@ def gen_cases(tier, seed):
         for kind in ("rhf", "uhf"):
             cases.append({"type": "mol", "kind": kind, "mol": m, "s": int(rng.integers(1 << 30)), "group": "mol-%s-%s" % (m, kind), "cost": 5})
     for rep in range(100 if q else 6000):
+        if rep % (8 if q else 40) == 0:
+            # differentiating THROUGH the SCF where the Fock spectrum has exact / near coincidences (rings, tied site energies)
+            cases.append({"type": "scfjvp", "kind": ["rhf", "uhf"][(rep // (8 if q else 40)) % 2], "model": ["ring4", "ring6", "ties", "ring4"][(rep // (16 if q else 80)) % 4],
+                          "s": int(rng.integers(1 << 30)), "group": "scfjvp-%d" % (rep % 4), "cost": 6})
         cases.append({"type": "eigh", "n": int(rng.integers(2, 8)), "spec": str(rng.choice(["generic", "generic", "shifted", "shifted", "degenerate", "near", "identity", "zero"])),
                       "s": int(rng.integers(1 << 30)), "group": "eigh-%d" % (rep % 6)})
     return cases
@@ -341,5 +345,65 @@ def run_eigh(case):
                                                                                    "dv_max": float(np.max(np.abs(dv))) if fin else None}, "counters": cnt}
 
 
+def run_scfjvp(case):
+    """jvp / grad through trial.optimize for Hamiltonians whose Fock matrix has coinciding eigenvalues: every derivative stays finite
+    (and the primal is untouched by taking it)"""
+    import jax
+    import jax.numpy as jnp
+
+    from ad_afqmc import wavefunctions
+
+    rng = np.random.default_rng(case["s"])
+    model = case["model"]
+    if model.startswith("ring"):
+        n = int(model[4:])
+        h = np.zeros((n, n))
+        for i in range(n):
+            h[i, (i + 1) % n] = h[(i + 1) % n, i] = -1.0
+        u = float(rng.choice([1.0, 2.0, 4.0]))
+        chol = np.zeros((n, n, n))
+        for g in range(n):
+            chol[g, g, g] = np.sqrt(u)
+        ne = {4: [(1, 1), (3, 3), (2, 2)], 6: [(3, 3), (1, 1), (2, 2)]}[n][int(rng.integers(3))]
+    else:
+        n = 5
+        lev = np.array([-1.0, -0.4, -0.4, 0.7, 0.7])   # bit-exact ties inside the spectrum
+        h = np.diag(lev)
+        chol = rng.normal(size=(2, n, n)) * 0.0
+        chol[0] = np.eye(n) * 0.3
+        ne = [(2, 2), (1, 1), (3, 3)][int(rng.integers(3))]
+    kind = case["kind"]
+    if kind == "uhf" and rng.random() < 0.5:
+        ne = (ne[0], max(ne[1] - 1, 0)) if ne[0] > 1 else ne
+    hd = {"h0": jnp.array(0.0), "h1": jnp.array(np.array([h, h])), "chol": jnp.array(chol.reshape(len(chol), -1))}
+    w_, v_ = np.linalg.eigh(h)
+    if kind == "rhf":
+        trial = wavefunctions.rhf(n, (ne[0], ne[0]), n_opt_iter=int(rng.choice([3, 10, 30])))
+        wd0 = {"mo_coeff": jnp.array(v_[:, : ne[0]])}
+    else:
+        trial = wavefunctions.uhf(n, tuple(ne), n_opt_iter=int(rng.choice([3, 10, 30])))
+        wd0 = {"mo_coeff": [jnp.array(v_[:, : ne[0]]), jnp.array(v_[:, : ne[1]])]}
+    O = rng.normal(size=(2, n, n))
+    O = (O + O.transpose(0, 2, 1)) / 2
+    R = rng.normal(size=(n, n))
+
+    def proj_of(c):
+        hd_c = dict(hd)
+        hd_c["h1"] = hd["h1"] + c * jnp.array(O)
+        out = trial.optimize(hd_c, dict(wd0))["mo_coeff"]
+        mats = [out] if kind == "rhf" else [out[0], out[1]]
+        return sum(jnp.sum((m @ m.T) * jnp.array(R)) for m in mats)
+
+    events = []
+    key = "C18/scf-derivative/%s/%s" % (kind, "ring" if model.startswith("ring") else "ties")
+    p0, t0 = jax.jvp(proj_of, (0.0,), (1.0,))
+    g0 = jax.grad(proj_of)(0.0)
+    events.append(ev("scf/forward-derivative-finite-at-coinciding-eigenvalues", bool(np.isfinite(float(t0))), key=key + "/jvp-finite", value=str(float(t0)), nelec=list(ne)))
+    events.append(ev("scf/reverse-derivative-finite-at-coinciding-eigenvalues", bool(np.isfinite(float(g0))), key=key + "/grad-finite", value=str(float(g0)), nelec=list(ne)))
+    events.append(ev("scf/primal-finite", bool(np.isfinite(float(p0))), key=key + "/primal-finite"))
+    return {"events": events, "nontrivial": True, "sample": {"kind": kind, "model": model, "nelec": list(ne), "jvp": float(t0), "grad": float(g0)},
+            "counters": {"scf_derivative_cases": 1, "optimize_calls": 2}}
+
+
 def run_case(case):
-    return {"scf": run_scf, "mol": run_mol, "eigh": run_eigh}[case["type"]](case)
+    return {"scf": run_scf, "mol": run_mol, "eigh": run_eigh, "scfjvp": run_scfjvp}[case["type"]](case)
